@@ -3,6 +3,7 @@
 
 use super::gen::*;
 use super::oracle::*;
+use crate::dsl::*;
 use super::*;
 use crate::sim::{Class, EvKind};
 
@@ -12,6 +13,13 @@ pub struct C06;
 pub fn overlaps(g: &GroupRec) -> Vec<Violation> {
     let mut v = Vec::new();
     let runs = do_runs(g);
+    // redo processes killed alone by the simulator, with the step of the kill
+    let killed: BTreeMap<&str, u64> = g
+        .events
+        .iter()
+        .filter(|e| matches!(e.kind, EvKind::Fault) && e.text.starts_with("kill-proc"))
+        .map(|e| (e.lid.as_str(), e.step))
+        .collect();
     let mut by_t: BTreeMap<&str, Vec<&DoRun>> = BTreeMap::new();
     for r in &runs {
         by_t.entry(r.target.as_str()).or_default().push(r);
@@ -21,13 +29,36 @@ pub fn overlaps(g: &GroupRec) -> Vec<Violation> {
         for w in rs.windows(2) {
             let end = w[0].end.unwrap_or(u64::MAX);
             if w[1].begin < end {
-                v.push(Violation {
-                    kind: "overlap".into(),
-                    detail: format!(
-                        "group {}: two executions of the .do of {} overlap: {} runs steps {}..{:?}, {} starts at step {}",
-                        g.step_idx, t, w[0].lid, w[0].begin, w[0].end, w[1].lid, w[1].begin
-                    ),
+                // Was one of the two scripts orphaned: its builder (the redo
+                // process that forked it and owns the target's fcntl lock)
+                // SIGKILLed alone by the simulator before the other script
+                // began?  The kernel drops the dead builder's lock while its
+                // child keeps running (known finding C06-orphan-of-killed-builder).
+                let orphan = w.iter().find_map(|r| {
+                    let p = lock_holder(g, &r.lid)?;
+                    let k = killed.get(p)?;
+                    if *k <= w[1].begin {
+                        Some(format!("orphan-of-killed-builder:{} (builder {} killed at step {})", r.lid, p, k))
+                    } else {
+                        None
+                    }
                 });
+                match orphan {
+                    Some(o) => v.push(Violation {
+                        kind: "overlap-orphan-of-killed-builder".into(),
+                        detail: format!(
+                            "group {}: [{}] two executions of the .do of {} overlap: {} runs steps {}..{:?}, {} starts at step {}",
+                            g.step_idx, o, t, w[0].lid, w[0].begin, w[0].end, w[1].lid, w[1].begin
+                        ),
+                    }),
+                    None => v.push(Violation {
+                        kind: "overlap".into(),
+                        detail: format!(
+                            "group {}: two executions of the .do of {} overlap: {} runs steps {}..{:?}, {} starts at step {}",
+                            g.step_idx, t, w[0].lid, w[0].begin, w[0].end, w[1].lid, w[1].begin
+                        ),
+                    }),
+                }
             }
         }
     }
@@ -87,6 +118,21 @@ pub fn job_lock_bytes(g: &GroupRec) -> BTreeMap<String, String> {
         }
     }
     job_fid
+}
+
+/// The redo process that owns the target lock under which the script `lid`
+/// runs: its parent, or -- when that parent is the second, lock-free
+/// `redo-ifchange` of a `redo-unlocked` helper -- the builder that started the
+/// helper while keeping the target's lock.
+pub fn lock_holder<'a>(g: &GroupRec, lid: &'a str) -> Option<&'a str> {
+    let p = parent_lid(lid)?;
+    if let Some(pp) = parent_lid(p) {
+        let pp_is_unlocked = g.procs.iter().any(|q| q.lid == pp && q.name == "redo-unlocked");
+        if pp_is_unlocked && p.ends_with(".1") {
+            return parent_lid(pp);
+        }
+    }
+    Some(p)
 }
 
 pub fn parent_lid(lid: &str) -> Option<&str> {
@@ -165,7 +211,9 @@ impl Property for C06 {
     }
     fn rule(&self) -> &'static str {
         "2-4 top-level redo/redo-ifchange commands (each -j1..4) started together or at a drawn later \
-         step on overlapping targets of random graphs, optionally with one redo process killed mid-build; \
+         step on overlapping targets of random graphs -- on a fresh project or, in half of the runs, as a \
+         rebuild after a complete build and source edits (checksummed targets, out-of-band re-checks) --, \
+         optionally with one redo process killed mid-build; \
          oracle: do-begin..do-end/death intervals of one target never overlap across all processes, and \
          the builder's unlock of the target's lock byte comes after it reaped the script and wrote to the \
          state database; non-trivial = >=1 preemption and >=1 script; distinct = (scenario, preemption \
@@ -175,6 +223,14 @@ impl Property for C06 {
         let mut p = GraphParams::small(rng);
         p.n_targets = rng.range(2, 6) as usize;
         p.max_work_ms = *rng.pick(&[5, 50, 200]);
+        // half of the scenarios contend for a *re*build: everything was built
+        // before and an input changed, so that the commands go through the
+        // recorded-dependency paths (maybe-dirty targets below checksummed
+        // ones are re-checked out of band by redo-unlocked)
+        let rebuild = rng.chance(1, 2);
+        if rebuild {
+            p.csum_pm = *rng.pick(&[300, 600]);
+        }
         let mut g = gen_graph(rng, &p);
         let nfail = if rng.chance(1, 4) { 1 } else { 0 };
         let flags = add_fail_flags(rng, &mut g, nfail);
@@ -183,7 +239,19 @@ impl Property for C06 {
             sc.files.retain(|(p, _)| p != &flags[0].0);
             sc.files.push((flags[0].0.clone(), b"1\n".to_vec()));
         }
-        if rng.chance(1, 3) {
+        if rebuild {
+            sc.history
+                .push(Step::Cmds(vec![redo_cmd(rng, "redo-ifchange", &[g.top()], 3, 0)]));
+            let mut srcs = g.sources.clone();
+            rng.shuffle(&mut srcs);
+            let k = rng.range(1, srcs.len() as u64) as usize;
+            for s in srcs.into_iter().take(k) {
+                sc.history.push(Step::Write {
+                    path: s.clone(),
+                    bytes: source_content(&s, 1),
+                });
+            }
+        } else if rng.chance(1, 3) {
             // state directory already exists
             sc.history.push(Step::Cmds(vec![redo_cmd(
                 rng,
